@@ -836,7 +836,7 @@ impl Check for C05 {
     fn meta(&self) -> Meta {
         Meta {
             level: "exploration",
-            rule: "E2, two runs in three in the client role and one in three in the server role: one driver thread (client poll_close / server accept() loop handing each accepted request to its own thread, optionally after a shutdown(0) call once the requests are handed out; first ever poll included, a fresh waker object at every poll, optionally pre-driven under a waker that is stale afterwards) and 1-3 request-task threads, each raising a distinct connection error through a real API call (client: request without authority -> H3_INTERNAL_ERROR from send_request; CANCEL_PUSH in a response -> H3_FRAME_UNEXPECTED; frame truncated by FIN -> H3_FRAME_ERROR; dynamic-table reference -> QPACK_DECOMPRESSION_FAILED; last SendRequest dropped -> H3_NO_ERROR; server: CANCEL_PUSH in a request body -> H3_FRAME_UNEXPECTED from recv_data; DATA frame truncated by FIN -> H3_FRAME_ERROR; dynamic-table reference -> QPACK_DECOMPRESSION_FAILED from resolve_request; both roles: the transport reports a connection-level error (internal error, application close or timeout) on the request stream first while the driver's own transport calls report nothing), optionally plus an error the driver detects itself (second control stream) or a transport-reported application close; the baton is handed over at the four named pre-emption points in h3 (error stored / before wake, driver checked / before register, registered, driver stored / before close) and, in one run in two, additionally at every single operation on the shared state (OnceLock get / set / get_or_init, AtomicBool load / store, AtomicWaker register / wake, instrumented under the verif-hooks feature), at every park and between transport events, the next holder drawn; in one run in three the request tasks start only after the driver has parked for the first time; later calls on every handle and on the driver; judged at exact quiescence (every thread parked or done, no transport event enabled); non-trivial = at least 2 pre-emption points visited; distinct = distinct sequences of (thread, pre-emption point / park)",
+            rule: "E2, two runs in three in the client role and one in three in the server role: one driver thread (client poll_close / server accept() loop handing each accepted request to its own thread, optionally after a shutdown(0) call once the requests are handed out; first ever poll included, a fresh waker object at every poll, optionally pre-driven under a waker that is stale afterwards) and 1-3 request-task threads, each raising a distinct connection error through a real API call (client: request without authority -> H3_INTERNAL_ERROR from send_request; CANCEL_PUSH in a response -> H3_FRAME_UNEXPECTED; frame truncated by FIN -> H3_FRAME_ERROR; dynamic-table reference -> QPACK_DECOMPRESSION_FAILED; last SendRequest dropped -> H3_NO_ERROR; server: CANCEL_PUSH in a request body -> H3_FRAME_UNEXPECTED from recv_data; DATA frame truncated by FIN -> H3_FRAME_ERROR; dynamic-table reference -> QPACK_DECOMPRESSION_FAILED from resolve_request; both roles: the transport reports a connection-level error (internal error, application close or timeout) on the request stream first while the driver's own transport calls report nothing), optionally plus an error the driver detects itself (second control stream) or a transport-reported application close; the baton is handed over at the four named pre-emption points in h3 (error stored / before wake, driver checked / before register, registered, driver stored / before close) and, in one run in two, additionally at every single operation on the shared state (OnceLock get / set / get_or_init, AtomicBool load / store, AtomicWaker register / wake, instrumented under the verif-hooks feature), at every park and between transport events, the next holder drawn; in one run in three the request tasks start only after the driver has parked for the first time; client role, one run in four: every task lets go of its SendRequest as soon as its request is out (the original is dropped up front), so that 'last SendRequest dropped' (H3_NO_ERROR) races with the errors the handles detect on requests still in flight; later calls on every handle and on the driver; judged at exact quiescence (every thread parked or done, no transport event enabled); non-trivial = at least 2 pre-emption points visited; distinct = distinct sequences of (thread, pre-emption point / park)",
             real: &["h3 SharedState (OnceLock error cell, AtomicWaker), ConnectionState::set_conn_error_and_wake, ConnectionInner::{handle_connection_error, poll_connection_error, close_if_needed}", "client Connection::poll_close, SendRequest, RequestStream", "server Connection::accept, RequestResolver::resolve_request, server RequestStream", "futures_util::task::AtomicWaker, std OnceLock, real OS threads (one running at a time)"],
             stub: &["thread scheduler (baton; choice-driven)", "QUIC transport (SimQuic, plain configuration)", "peer (script)"],
             assumptions: &["only one thread runs at a time, so shared-state operations are sequentially consistent - the granularity the property states; memory-model races are out of reach"],
